@@ -1072,8 +1072,16 @@ func c14CmpOne(c hx.Case, im, model, spec map[string]any) hx.Verdict {
 			}
 		}
 		if d := c14Diff(c, im, want, full, false); d != "" {
-			v.IS = false
-			v.Detail = "property: " + d + " " + v.Detail
+			ok := false
+			if jbool(spec, "orDead") {
+				// the spec also accepts a dead writer with nothing on the wire (refused status code in strict mode)
+				dead := map[string]any{"ran": true, "err": []any{}, "status": 200, "body": "", "panicked": true}
+				ok = c14Diff(c, im, dead, false, false) == ""
+			}
+			if !ok {
+				v.IS = false
+				v.Detail = "property: " + d + " " + v.Detail
+			}
 		}
 	}
 	return v
@@ -1161,6 +1169,11 @@ func c14Sources() []c14Src {
 		{"sec.op.over", true, map[string]any{"opSecurity": []any{A}, "docSecurity": []any{[]any{"b"}}, "declared": []any{"a", "b"}, "accepted": []any{"b"}}},
 		{"sec.op.over", false, map[string]any{"opSecurity": []any{A}, "docSecurity": []any{[]any{"b"}}, "declared": []any{"a", "b"}, "accepted": []any{"a"}}},
 		{"sec.op.none", false, map[string]any{"opSecurity": []any{}, "docSecurity": []any{A}, "declared": []any{"a"}, "accepted": []any{}}},
+		// the empty requirement {} needs no authentication — alone, as the alternative after a failing one, at operation level
+		{"sec.doc.empty", false, map[string]any{"docSecurity": []any{[]any{}}, "declared": []any{"a"}, "accepted": []any{}}},
+		{"sec.doc.alt_empty", false, map[string]any{"docSecurity": []any{A, []any{}}, "declared": []any{"a"}, "accepted": []any{}}},
+		{"sec.op.empty", false, map[string]any{"opSecurity": []any{[]any{}}, "docSecurity": []any{A}, "declared": []any{"a"}, "accepted": []any{}}},
+		{"sec.op.alt_empty", false, map[string]any{"opSecurity": []any{[]any{"u"}, []any{}}, "declared": []any{"a"}, "accepted": []any{}}},
 		{"body", false, map[string]any{"hasBody": true, "bodyFail": ""}},
 		{"body.schema", true, map[string]any{"hasBody": true, "bodyFail": "schema"}},
 		{"body.empty", true, map[string]any{"hasBody": true, "bodyFail": "empty"}},
